@@ -171,12 +171,56 @@ impl<K: Ord, V> BTreeMap<K, V> {
     }
 }
 
-impl<K: Clone, V: Clone> Clone for BTreeMap<K, V> {
+/// How the model map copies keys and values. `Vec<u8>::clone` goes through std's `to_vec_in`
+/// (allocation of symbolic size + memcpy), after which the symbolic executor no longer sees that a
+/// cloned key still holds a constant name, every later key comparison becomes symbolic and with it
+/// the layout of the map. Under Kani byte vectors are therefore copied element by element into a
+/// fixed-capacity allocation; natively this is a plain clone.
+pub trait ModelClone {
+    fn mclone(&self) -> Self;
+}
+impl ModelClone for Vec<u8> {
+    fn mclone(&self) -> Self {
+        #[cfg(kani)]
+        {
+            let n = self.len();
+            assert!(n <= 40, "verification map: key longer than 40 bytes");
+            let mut v: Vec<u8> = Vec::with_capacity(40);
+            let src = self.as_ptr();
+            let dst = v.as_mut_ptr();
+            macro_rules! step { ($($i:expr),*) => { $( if $i < n { unsafe { *dst.add($i) = *src.add($i); } } )* } }
+            step!(0, 1, 2, 3, 4, 5, 6, 7, 8, 9, 10, 11, 12, 13, 14, 15, 16, 17, 18, 19, 20, 21, 22, 23, 24, 25,
+                  26, 27, 28, 29, 30, 31, 32, 33, 34, 35, 36, 37, 38, 39);
+            unsafe { v.set_len(n) };
+            v
+        }
+        #[cfg(not(kani))]
+        {
+            self.clone()
+        }
+    }
+}
+impl ModelClone for bytes::Bytes {
+    fn mclone(&self) -> Self {
+        self.clone()
+    }
+}
+impl ModelClone for u8 {
+    fn mclone(&self) -> Self {
+        *self
+    }
+}
+
+impl<K: ModelClone, V: ModelClone> Clone for BTreeMap<K, V> {
     fn clone(&self) -> Self {
         let mut out = Self::new();
         each_slot!(i, {
             if i < self.len {
-                let old = core::mem::replace(out.slot_mut(i), self.slot(i).clone());
+                let c = match self.slot(i) {
+                    Some((k, v)) => Some((k.mclone(), v.mclone())),
+                    None => None,
+                };
+                let old = core::mem::replace(out.slot_mut(i), c);
                 core::mem::forget(old);
             }
         });
